@@ -635,6 +635,11 @@ class CallMixin(object):
                 if pt is not None:
                     if v.py == "emptydict" and isinstance(pt, TDict):
                         v = self.empty_dict(pt)
+                    if isinstance(v.ty, TOpt) and v.ty.t == pt and not self.spec_mode:
+                        # the contract types the parameter as non-None: the caller must establish it
+                        self.ctx.oblige(z3.Not(opt_is_none(v)), "%s/call:%s#%d/arg-%s-not-None" % (
+                            self.ctx.fnname, spec.path, self.site(node), n), "call-pre", getattr(node, "lineno", 0))
+                        v = opt_val(v)
                     v = coerce(v, pt)
                 fr.locals[n] = v
             fr.entry_locals = dict(fr.locals)
